@@ -239,7 +239,7 @@ fn u_extract()
     buf.lit(b" m");
     let r = LogRefEntry::extract_reference(buf.as_str());
     let expect = NDIGITS >= 1 && NDIGITS <= 10 && closer == b']' && value <= 4294967295;
-    kani::cover!(expect, "valid reference");
+    kani::cover!(NDIGITS > 10 || expect, "valid reference");
     kani::cover!(!expect, "not a reference");
     if expect
     {
